@@ -128,3 +128,70 @@ def keyident(ctx):
     if nuses < 6:
         raise AnalysisError('anchor-vanished: uses of extent->Inode maps (%d)' % nuses)
     return obs
+
+
+def _block_of(par, s):
+    p = par.get(id(s))
+    for fld in ('body', 'orelse', 'finalbody'):
+        b = getattr(p, fld, None)
+        if isinstance(b, list) and any(x is s for x in b):
+            return b
+    return None
+
+
+@rule('SA-IDENT.sanitized')
+@props('C16', 'C07')
+def sanitized(ctx):
+    """Once a record's extent has been replaced by its sanitised copy, identity is decided on the copy.
+
+    `extent_to_use = new_extent_loc` followed by `if <zero length or symlink>: extent_to_use = 0` introduces the
+    value that stands for "the content this record names": empty files and symlinks carry arbitrary extent
+    numbers (mkisofs gives an empty file the extent of the next file laid out) and must not be identified with
+    whatever real content lives there.  In the rest of the block every identity decision - `==`/`!=`/`in`
+    comparisons and subscripts - has to use the sanitised copy; a decision on the raw variable treats an empty
+    file whose extent number happens to equal the boot catalog's (or another file's) as that object, and reading
+    it then returns the other object's bytes."""
+    obs = []
+    npairs = 0
+    for fi in ctx.m.pkg_functions():
+        par = ctx.parents(fi)
+        copies = [n for n in ctx.own_nodes(fi) if isinstance(n, ast.Assign) and len(n.targets) == 1 and isinstance(n.targets[0], ast.Name) and
+                  isinstance(n.value, ast.Name) and n.value.id != n.targets[0].id]
+        for cp in copies:
+            new, raw = cp.targets[0].id, cp.value.id
+            blk = _block_of(par, cp)
+            if blk is None:
+                continue
+            idx = [i for i, x in enumerate(blk) if x is cp][0]
+            # a later statement of the same block conditionally overrides the copy with a constant
+            over = None
+            for j in range(idx + 1, len(blk)):
+                s = blk[j]
+                if isinstance(s, ast.If) and any(isinstance(x, ast.Assign) and len(x.targets) == 1 and norm(x.targets[0]) == new and
+                                                 isinstance(x.value, ast.Constant) for x in ast.walk(s)):
+                    over = j
+                    break
+                if any(isinstance(x, ast.Name) and x.id == raw and isinstance(x.ctx, ast.Store) for x in ast.walk(s)):
+                    break
+            if over is None:
+                continue
+            npairs += 1
+            bad = []
+            for s in blk[over + 1:]:
+                for n in ast.walk(s):
+                    names = []
+                    if isinstance(n, ast.Compare) and any(isinstance(o, (ast.Eq, ast.NotEq, ast.In, ast.NotIn)) for o in n.ops):
+                        names = [x for x in [n.left] + list(n.comparators) if isinstance(x, ast.Name)]
+                    elif isinstance(n, ast.Subscript) and isinstance(n.slice, ast.Name):
+                        names = [n.slice]
+                    for x in names:
+                        if x.id == raw:
+                            bad.append(n)
+            key = '%s|%s stands for %s' % (fi.qual, new, raw)
+            obs.append(Ob('SA-IDENT.sanitized', key, not bad, ctx.loc(fi, bad[0] if bad else cp),
+                          '' if not bad else '`%s` (line %d) decides identity on the raw `%s` although `%s` (line %d: forced to a constant for a class of records) '
+                          'stands for it in this block: a record of that class whose raw value happens to equal the other side is taken for that object'
+                          % (norm(bad[0]), bad[0].lineno, raw, new, blk[over].lineno)))
+    if npairs < 1:
+        raise AnalysisError('anchor-vanished: sanitised copies of an identity value (extent_to_use) not found')
+    return obs
